@@ -60,6 +60,8 @@ type arSend struct {
 	via      string // tpl | ext | contract
 	block    *nom.AccountBlock
 	answered int
+	status   uint64 // of the receive block that answered it
+	retErr   string // the method's error behind a status 2
 }
 
 type arRun struct {
@@ -401,6 +403,10 @@ func (r *arRun) checkReceive(send *nom.AccountBlock, res *vm.ContractExecution, 
 	if len(b.Data) == 8 {
 		status = common.BytesToUint64(b.Data)
 	}
+	rec.status = status
+	if res.ReturnedError != nil {
+		rec.retErr = firstLine300(res.ReturnedError.Error())
+	}
 	storageSame := strings.Join(before, ",") == strings.Join(after, ",")
 	var sb strings.Builder
 	for _, d := range b.DescendantBlocks {
@@ -674,6 +680,10 @@ func init() {
 		// the boundary-integer sweep (s_autoreceive_sweep.go): every method x every integer argument and the amount x the
 		// boundary family, under all sporks; in the thorough tier also under the other spork regimes
 		autoreceiveHistory(c, 3, "int-sweep:0/1")
+		// calls that carry a cryptographic proof, the key / entry behind the proof absent, present, consumed (s_autoreceive_proofs.go);
+		// all sporks, and the regime of the seed (swap and legacy pillars exist under every regime)
+		autoreceiveHistory(c, 3, "proof-states")
+		autoreceiveHistory(c, int(c.Seed%3), "proof-states")
 		// reward epochs with degenerate participants (s_autoreceive_degenerate.go), compressed calendar; regimes 3 and 0..2 in turn
 		autoreceiveHistory(c, 3, "degenerate-epochs")
 		autoreceiveHistory(c, int(c.Seed%3), "degenerate-epochs")
